@@ -30,6 +30,7 @@
 (*   server    "plain" | "tls" | "unix" | "tls2" (TLS offering HTTP/2) |   *)
 (*             "mtls" (TLS that demands a client certificate: -cert/-key,  *)
 (*             clientcert "none" | "pair" | "onefile" = key inside -cert)  *)
+(*   tickets   -session-tickets (TLS session resumption)                   *)
 (*             "h2c" (HTTP/2 without TLS, and HTTP/1.1)                    *)
 (*   http2     -http2 (default true)     h2c   -h2c                        *)
 (*   hosthdr   -header "Host: virtual.example": the request's host          *)
@@ -75,11 +76,12 @@ Min(a, b) == IF a <= b THEN a ELSE b
 Base == [server |-> "plain", trust |-> "na", format |-> "http", lazy |-> TRUE, bad |-> "none", rate |-> 0, maxw |-> 1, workers |-> 1,
          name |-> "", hdr |-> FALSE, body |-> FALSE, chunked |-> FALSE, maxbody |-> -1, redirects |-> "default", keepalive |-> TRUE,
          timeout |-> "default", connectto |-> FALSE, laddr |-> FALSE, prom |-> FALSE, maxconn |-> 0, hosts |-> 1,
-         http2 |-> TRUE, h2c |-> FALSE, hosthdr |-> FALSE, stall |-> FALSE, head |-> FALSE, lookup |-> FALSE, dnsdest |-> "none", clientcert |-> "none"]
+         http2 |-> TRUE, h2c |-> FALSE, hosthdr |-> FALSE, stall |-> FALSE, head |-> FALSE, lookup |-> FALSE, dnsdest |-> "none", clientcert |-> "none", tickets |-> FALSE]
 
 Valid(c) ==
     /\ c.server \in {"plain", "tls", "unix", "tls2", "h2c", "mtls"} /\ c.format \in {"http", "json"} /\ c.bad \in {"none", "late"}
     /\ (c.server \in {"tls", "tls2", "mtls"}) = (c.trust # "na")
+    /\ (c.tickets => c.server \in {"tls", "tls2", "mtls"})
     /\ c.clientcert \in {"none", "pair", "onefile"} /\ (c.clientcert # "none" => c.server \in {"tls", "mtls"})
     /\ (c.h2c => c.server = "h2c") /\ c.trust \in {"na", "insecure", "rootcert", "none"}
     /\ (c.stall => c = [Base EXCEPT !.stall = TRUE, !.lazy = FALSE, !.rate = 200, !.maxw = 64])
@@ -124,6 +126,8 @@ Single ==
           [Base EXCEPT !.connectto = TRUE, !.keepalive = FALSE, !.dnsdest = "forever", !.lazy = FALSE, !.rate = 50, !.maxw = 3],
           [Base EXCEPT !.server = "mtls", !.trust = "insecure", !.clientcert = "pair"], [Base EXCEPT !.server = "mtls", !.trust = "rootcert", !.clientcert = "onefile"],
           [Base EXCEPT !.server = "mtls", !.trust = "insecure"], [Base EXCEPT !.server = "tls", !.trust = "insecure", !.clientcert = "pair"],
+          [Base EXCEPT !.server = "tls", !.trust = "insecure", !.keepalive = FALSE, !.tickets = TRUE], [Base EXCEPT !.server = "tls", !.trust = "rootcert", !.tickets = TRUE],
+          [Base EXCEPT !.server = "mtls", !.trust = "insecure", !.clientcert = "pair", !.keepalive = FALSE, !.tickets = TRUE],
           [Base EXCEPT !.server = "mtls", !.trust = "insecure", !.clientcert = "pair", !.lazy = FALSE, !.rate = 0, !.maxw = 3, !.keepalive = FALSE],
           [Base EXCEPT !.head = TRUE], [Base EXCEPT !.head = TRUE, !.maxbody = 2], [Base EXCEPT !.head = TRUE, !.maxbody = 0, !.server = "tls", !.trust = "insecure"],
           [Base EXCEPT !.hosthdr = TRUE], [Base EXCEPT !.hosthdr = TRUE, !.hdr = TRUE, !.format = "json"], [Base EXCEPT !.hosthdr = TRUE, !.connectto = TRUE],
@@ -256,6 +260,11 @@ CmdOK(c, o) ==
        \* the -dns-ttl policy - kept for ever by default (one lookup however many connections), none kept with -1
        /\ (c.dnsdest = "forever" /\ Reaches(c) => o.dnsq = 1)
        /\ (c.dnsdest = "off" /\ Reaches(c) => o.dnsq >= Len(o.reqs))
+       \* -session-tickets: without it no TLS session is ever resumed; with it one sequential worker that opens a connection per
+       \* request makes one full handshake, every later connection resumes the session
+       /\ (~c.tickets => \A j \in 1..Len(o.reqs) : ~o.reqs[j].resumed)
+       /\ (c.tickets /\ ~c.keepalive /\ c.maxw = 1 /\ c.timeout = "default" /\ Reaches(c) /\ Proto(c) = "HTTP/1.1"
+             => Cardinality({j \in 1..Len(o.reqs) : ~o.reqs[j].resumed}) = 1)
        \* -prometheus-addr: by the time the last target is answered the exporter has counted the six results before it
        /\ (c.prom => o.prom_count >= 6)
 =============================================================================
